@@ -21,10 +21,10 @@ NOT_APPLICABLE = {}
 PROPS = {
     "C01": {
         "claim": "Decides, on every CFG path of every function body of the crate (any history, by induction over calls), the structural rules GC1, GC2, GC3, GC4, GC5, GC7a, GC9; together with the hand argument of DESIGN §5.0 (rules ⇒ invariants I1–I3 ⇒ statement) this is the whole statement under the property's preconditions. Static, no execution; no bound on history length, ids, N or capacity.",
-        "note": "Trusted: rustc front end + engine's reading of MIR; container crates at their locked versions as audited (DESIGN §3); the hand argument rules ⇒ invariants ⇒ statement. merge() on non-tree input is exempt (GC1 scoped exemption).",
+        "note": "Trusted: rustc front end + engine's reading of MIR; container crates at their locked versions as audited (DESIGN §3); the hand argument rules ⇒ invariants ⇒ statement. merge() on non-tree input is exempt (GC1 scoped exemption). MG2 is run as a premise: merge() changes the graph only through add/bind/put/next_id (in particular it performs no consuming read), so histories that contain merges are histories of those calls.",
         "technique": 'MIR who-may-write + guard/dominance rules (custom rustc driver)',
         "rules": [("GC0", G.gc0), ("GC1", G.gc1), ("GC2", G.gc2), ("GC3", G.gc3), ("GC4", G.gc4), ("GC5", G.gc5),
-                  ("GC7a", functools.partial(G.gc7, part="a")), ("GC9", G.gc9)],
+                  ("GC7a", functools.partial(G.gc7, part="a")), ("GC9", G.gc9), ("MG2", MG.mg2)],
         "explanation": "GC safety via invariants I1–I3: removal sites only in data() (GC1), guarded by first read ∧ grouped ∧ "
                        "counter==0 over the reader's member list (GC2), read arms (GC3), counter == number of unread data (GC4, needed for "
                        "'no removed vertex holds an unread datum'), membership pairing in bind (GC5), "
@@ -36,7 +36,7 @@ PROPS = {
         "claim": 'Decides the counter-pairing rules GC4 in both directions (every +1 is a put-gain or join-gain, every −1 a first read of a grouped vertex, and conversely), GC3, GC5, GC6b, GC9 on all CFG paths; with DESIGN §5.0 this gives counter == number of unread data of the group after every call, hence exact collection and no underflow. LM: the documented limits are available in the code (both group tables are created with a constant of at least 16 slots = 2 reserved + 14 groups, a member list holds at least 16 vertices), so a call within the limits is not stopped by a smaller table; whether a history stays within the limits is a precondition.',
         "note": 'Trusted: as C01. Staying within the capacity limits (16 members, 14 groups) is a precondition; that the code provides them is decided (LM).',
         "technique": 'MIR pairing / co-occurrence rules on counter and tag events',
-        "rules": [("GC3", G.gc3), ("GC4", G.gc4), ("GC5", G.gc5), ("GC6b", functools.partial(G.gc6, parts="b")), ("GC9", G.gc9), ("LM", G.limits)],
+        "rules": [("GC3", G.gc3), ("GC4", G.gc4), ("GC5", G.gc5), ("GC6b", functools.partial(G.gc6, parts="b")), ("GC9", G.gc9), ("LM", G.limits), ("MG2", MG.mg2)],
         "explanation": "GC exactness: the unread counter of a group changes by exactly the put-gain / join-gain / read-loss "
                        "transitions (GC4, both directions), tags and member lists change together (GC5), the destroyed list is "
                        "cleared (GC6b), read arms (GC3), slot totality (GC9).",
@@ -44,10 +44,10 @@ PROPS = {
         "assumptions": ["capacity limits (16 members, 14 groups) are preconditions"],
     },
     "C04": {
-        "claim": 'Decides GC7 completely: the tag write in add() is guarded by the pre-state tag being 0, the reset of edges, data and read status co-occurs with it on exactly the same paths, and no other path of add() writes anything.',
+        "claim": 'Decides GC7 completely: the tag write in add() is guarded by the pre-state tag being 0, the reset of edges, data and read status co-occurs with it on exactly the same paths, and no other path of add() writes anything; add() contains no always-compiled assertion about the vacant slot other than the documented preconditions (and "holds no unread datum", which counter exactness gives), so re-creating a collected id completes. CL1 (a clone has every slot of the original's vertex table) is run as a premise: the statement holds on clones as well.',
         "note": 'Trusted: rustc front end + engine; micromap::Map::new / Hex::empty produce blank values (read).',
         "technique": 'MIR guard + co-occurrence rule on add()',
-        "rules": [("GC7", functools.partial(G.gc7, part="ab"))],
+        "rules": [("GC7", functools.partial(G.gc7, part="abc")), ("CL1/CL4", NX.cl1)],
         "explanation": "add(): tag := 1 only under pre-state tag ∈ {0}, with edges/data/read status reset on the same paths; "
                        "no effect on a present vertex.",
         "trusted": [RUSTC, CONTAINERS],
@@ -65,19 +65,19 @@ PROPS = {
         "assumptions": ["fewer than 14 groups alive is the precondition under which the search succeeds"],
     },
     "C18": {
-        "claim": "Decides the structural clauses XP1–XP4 of to_xml()/to_dot(): per-vertex emission is control-dependent on the slot's tag being non-zero (sibling rule over keys / Debug / to_xml / to_dot), vertices come from the ascending store iteration or a sort by id and edges pass a sort by label, one edge entry per item of the vertex's edge map with that item's label and target and no condition on the edge, and the data entry is guarded by persistence ∉ {Empty} (nothing narrower) and prints that vertex's data; neither the vertex walk nor the edge walk is left early (no break / success return inside). Does not decide well-formedness/escaping of the produced text. RW7 (derived Ord of Label: the sort the exports rely on is the total order of the enum value) and HX6 (Display of Hex, which the DOT export embeds, writes exactly print()) are run as premises.",
+        "claim": "Decides the structural clauses XP1–XP4 of to_xml()/to_dot(): per-vertex emission is control-dependent on the slot's tag being non-zero (sibling rule over keys / Debug / to_xml / to_dot), vertices come from the ascending store iteration or a sort by id and edges pass a sort by label, one edge entry per item of the vertex's edge map with that item's label and target and no condition on the edge, and the data entry is guarded by persistence ∉ {Empty} (nothing narrower) and prints that vertex's data; neither the vertex walk nor the edge walk is left early (no break / success return inside). Does not decide well-formedness/escaping of the produced text. RW7 (derived Ord of Label: the sort the exports rely on is the total order of the enum value) and HX6 (Display of Hex, which the DOT export embeds, writes exactly print()) and HX2 (print() and the other views of Hex do not depend on the representation: equal data print equally) are run as premises.",
         "note": "Trusted: rustc front end + engine; emap iteration is ascending and skips no Some slot; itertools sorted_by_key is a stable sort. The text-level clause (document parses back) is not decided.",
         "technique": "MIR guard + iterator-chain (taint/sanitiser) + provenance rules",
-        "rules": [("XP1", L.xp1), ("XP2", L.xp2), ("XP3", L.xp3), ("XP4", L.xp4), ("RW7", LB.lb7), ("HX6", H.hx6)],
+        "rules": [("XP1", L.xp1), ("XP2", L.xp2), ("XP3", L.xp3), ("XP4", L.xp4), ("RW7", LB.lb7), ("HX6", H.hx6), ("HX2", H.hx2)],
         "explanation": "XP1 present filter (sibling rule, floor 4 listings), XP2 ascending vertex order and label-sorted edges, XP3 one unconditional entry per edge with its label and target, XP4 data entry iff has-data.",
         "trusted": [RUSTC, CONTAINERS],
         "assumptions": ["labels need no XML escaping (property precondition)"],
     },
     "C20": {
-        "claim": "Decides IN1–IN4: the recursive descent of inspect() is control-dependent on the target not being in the visited set and vertices are marked before descending (termination on cycles); one unconditional line per edge of the visited vertex with its label and target; Debug/Display list a slot only if its tag is non-zero, with every edge and the data iff has-data, and no walk is left before its iterator is exhausted; v_print selects the data marker by persistence ∉ {Empty} of the printed vertex and lists one label per edge of that vertex.",
+        "claim": "Decides IN1–IN4: the recursive descent of inspect() is control-dependent on the target not being in the visited set and vertices are marked before descending (termination on cycles); one unconditional line per edge of the visited vertex with its label and target; Debug/Display list a slot only if its tag is non-zero, with every edge and the data iff has-data, and no walk is left before its iterator is exhausted; v_print selects the data marker by persistence ∉ {Empty} of the printed vertex and lists one label per edge of that vertex. HX6/HX2 (the text a datum is listed with is print() of its bytes, whatever the representation) are run as premises.",
         "note": "Trusted: rustc front end + engine; std HashSet. Exactly-once listing follows from marked-before-descent + unconditional per-edge line (hand argument).",
         "technique": "MIR guarded-recursion + guard/provenance rules",
-        "rules": [("IN1", L.in1), ("IN2", L.in2), ("IN3", L.in3), ("IN4", L.in4)],
+        "rules": [("IN1", L.in1), ("IN2", L.in2), ("IN3", L.in3), ("IN4", L.in4), ("HX6", H.hx6), ("HX2", H.hx2)],
         "explanation": "IN1 guarded recursion, IN2 per-edge line, IN3 Debug/Display present filter + edges + data, IN4 v_print marker and labels.",
         "trusted": [RUSTC, CONTAINERS],
         "assumptions": [],
@@ -101,10 +101,10 @@ PROPS = {
         "assumptions": [],
     },
     "C16": {
-        "claim": "Decides CC1–CC3 completely for concat(): no byte source appended to the result is a whole inline array (sources are bytes() views, the heap vector, or the array cut at its length field); the heap result is left bytes then right bytes exactly once each with no other conditional change of the vector; the inline result is built only under the tested fact l + len(h) ≤ 8, records l + len(h) and has the right bytes placed from index l of a copy of the left array; both operands are shared references to a type without interior mutability in a module without unsafe code.",
+        "claim": "HX3 (the byte view concat() reads its operands through is the array cut at its length / the heap vector, and is total) is run as a premise. Decides CC1–CC3 completely for concat(): no byte source appended to the result is a whole inline array (sources are bytes() views, the heap vector, or the array cut at its length field); the heap result is left bytes then right bytes exactly once each with no other conditional change of the vector; the inline result is built only under the tested fact l + len(h) ≤ 8, records l + len(h) and has the right bytes placed from index l of a copy of the left array; both operands are shared references to a type without interior mutability in a module without unsafe code.",
         "note": "Trusted: rustc front end + engine; Vec::extend_from_slice / copy_from_slice semantics. Known finding F6 (inline-to-heap spill copies the whole array) is listed in known_findings.json because the existing test concatenates_from_hex_vec asserts the defective length.",
         "technique": "MIR provenance of appended byte sources + ordering by dominance",
-        "rules": [("CC1", H.cc1), ("CC2", H.cc2), ("CC3", H.cc3)],
+        "rules": [("CC1", H.cc1), ("CC2", H.cc2), ("CC3", H.cc3), ("HX3", H.hx3)],
         "explanation": "CC1 provenance of every appended byte source, CC2 order and recorded length, CC3 operands unchanged.",
         "trusted": [RUSTC],
         "assumptions": [],
@@ -155,11 +155,11 @@ PROPS = {
         "assumptions": ["debug-assertion builds"],
     },
     "C03": {
-        "claim": "Decides all structural clauses RW1–RW7 + GC7b + GC8: bind(v1,v2,a) performs edges(v1).insert(a,v2) unconditionally with exactly its parameters; kid(v,a) returns the target of an edge of v only under label equality with a, None only after all edges were compared; kids(v) is the unfiltered iterator of v's edge map; put stores d.clone() unconditionally; data returns a copy of the stored datum in both the Stored and the Taken arm and None exactly in the Empty arm; edges/data/read status of graph vertices are written only by bind/put/data/add and only on vertices named by an id parameter; Label's Eq/Hash/Ord are derived; a recycled id is blanked. Value equality of bytes is delegated to the derived Clone of Hex and micromap's replace-in-place insert (trusted).",
+        "claim": "Decides all structural clauses RW1–RW7 + GC7b + GC8: bind(v1,v2,a) performs edges(v1).insert(a,v2) unconditionally with exactly its parameters; kid(v,a) returns the target of an edge of v only under label equality with a, None only after all edges were compared; kids(v) is the unfiltered iterator of v's edge map; put stores d.clone() unconditionally; data returns a copy of the stored datum in both the Stored and the Taken arm and None exactly in the Empty arm; edges/data/read status of graph vertices are written only by bind/put/data/add and only on vertices named by an id parameter; Label's Eq/Hash/Ord are derived; a recycled id is blanked and add() leaves a present vertex untouched (GC7, both parts); GC4 (counter pairing) is run as a premise — a counter that was not incremented makes the read of a present vertex stop in the decrement instead of returning the bytes. Value equality of bytes is delegated to the derived Clone of Hex and micromap's replace-in-place insert (trusted).",
         "note": "Trusted: rustc front end + engine; micromap::Map::insert replaces the value of an equal key in place; derived Clone of Hex copies the bytes.",
         "technique": "MIR provenance + guard + who-may-write (frame) rules",
         "rules": [("RW1", RW.rw1), ("RW2", RW.rw2), ("RW3", RW.rw3), ("RW4/RW5", RW.rw45), ("RW6", RW.rw6), ("RW7", LB.lb7),
-                  ("GC7b", functools.partial(G.gc7, part="b")), ("GC8", G.gc8)],
+                  ("GC7", functools.partial(G.gc7, part="ab")), ("GC8", G.gc8), ("GC4", G.gc4)],
         "explanation": "RW1 bind's insert, RW2 kid, RW3 kids, RW4 put, RW5 data's three arms, RW6 who-may-write, RW7 derived Label traits, GC7b blanking, GC8 frame.",
         "trusted": [RUSTC, CONTAINERS],
         "assumptions": ["capacity limits and documented preconditions"],
